@@ -139,6 +139,43 @@ def one_case(rng, res):
                          {"why": "digest equality does not coincide with equality of the contained (path, content) sets"})
 
 
+def many_files_case(n, rng, res):
+    """A directory with very many files (counts just above powers of two: chunked processing shows at the seams)."""
+    tree = {}
+    for j in range(n):
+        name = "f%05d" % j
+        if j % 7 == 0:
+            tree.setdefault("sub%d" % (j % 3), ("d", {}))[1][name] = ("f", b"%d\n" % j)
+        else:
+            tree[name] = ("f", b"%d\n" % j)
+    name = "many"
+    d = tempfile.mkdtemp(prefix="verif-c20m-")
+    try:
+        materialise_shuffled(tree, os.path.join(d, name), rng)
+        i = impl_dir(d, name, [])
+    finally:
+        shutil.rmtree(d, ignore_errors=True)
+    m, _raw = model_dir(tree, name, [])
+    exp, entries = documented_digest(tree, [])
+    desc = {"variant": "many_files", "n_files": len(entries), "dir": name}
+    res.case({"desc": desc, "impl": i}, True, i == m, sample_cap=1)
+    res.count("variant_many_files")
+    full = {"op": "dir_digest_many", "desc": desc}
+    if i != m:
+        res.fail("disagree", full, {"op": "record dir:", "impl": i, "model": m})
+    if i != {"ok": [["dir:" + name, exp]]}:
+        res.fail("oracle", full, {"why": "dir: digest of a directory with %d files is not the SHA-256 of the documented '<sha256>  <path>' "
+                                         "lines in byte order" % len(entries), "impl": i, "expected": exp})
+
+
+def shard_many(seed, counts):
+    res = core.Result()
+    rng = core.rng_for(seed, "c20", "many")
+    for n in counts:
+        many_files_case(n, rng, res)
+    return res
+
+
 def one_ostree(rng, res):
     d = tempfile.mkdtemp(prefix="verif-c20o-")
     try:
@@ -233,7 +270,9 @@ def shard(seed, idx, n, tier):
 
 def run(tier, seed):
     per = 5 if tier == "quick" else 65
-    return core.parallel(core.call, [(shard, (seed, i, per, tier)) for i in range(16)])
+    shards = [(shard, (seed, i, per, tier)) for i in range(16)]
+    shards.append((shard_many, (seed, [1025, 2049] if tier == "quick" else [1023, 1024, 1025, 2049, 4097, 8200])))
+    return core.parallel(core.call, shards)
 
 
 def replay(case):
